@@ -719,9 +719,16 @@ class Project(MessageHandler):
         for task in self.tasks:
             if task.leaf():
                 task_count += 1
-                # Get effort - stored in hours, convert to seconds
+                # Get effort - stored in hours, convert to seconds. The horizon is shared by all
+                # scenarios, so it has to fit the scenario that needs the most work.
                 try:
                     effort = task.get("effort", 0)
+                    for other_scenario in range(1, self.scenarioCount()):
+                        other_effort = task.get("effort", other_scenario)
+                        if isinstance(other_effort, (int, float)) and (
+                            not isinstance(effort, (int, float)) or other_effort > effort
+                        ):
+                            effort = other_effort
                     if effort:
                         if isinstance(effort, (int, float)):
                             # Effort is in hours, convert to seconds
